@@ -18,41 +18,41 @@ LEVEL_TEXT = (
 )
 
 CLAIMED = {
-    "C01": ("§2 C01", "container-API resolution, guarded one-past-the-end subscripts, run-start dependence, uniqueness guarantees (schema+assertions), candidate def-use, CLI wiring, no unpacking along a data-dependent axis without an emptiness test",
+    "C01": ("§2 C01", "container-API resolution, guarded one-past-the-end subscripts, run-start dependence, uniqueness guarantees (schema+assertions), candidate def-use, CLI wiring, no unpacking along a data-dependent axis without an emptiness test; one jump threshold for rises and interstorm intervals; plain INSERTs in classify",
             "Residue: totality in general (numeric exceptions), termination argued via C02 skeleton. Trusts numpy semantics table and SQLite constraint enforcement."),
-    "C02": ("§2 C02", "deferred-acceptance skeleton conformance: ordering parity (D-ord), polarity of preference metrics, re-queue ordering on CFG, duration metric by affine lengths, completeness of the groups both preference tables are built from (no groupby over an unsorted sequence)",
+    "C02": ("§2 C02", "deferred-acceptance skeleton conformance: ordering parity (D-ord), polarity of preference metrics, re-queue ordering on CFG, duration metric by affine lengths, completeness of the groups both preference tables are built from (no groupby over an unsorted sequence); every free storm proposes (no exit from the iteration before the proposal except on an empty candidate list)",
             "Residue: the Gale-Shapley theorem itself; tie handling."),
-    "C03": ("§2 C03", "comparison normal forms of threshold predicates, sibling consistency, affine index/epoch conventions at SQL sinks, reader/writer interval predicates, SQL AST of rain-depth view, index spaces of looked-up positions, cursor typestate of the per-interval loop",
+    "C03": ("§2 C03", "comparison normal forms of threshold predicates, sibling consistency, affine index/epoch conventions at SQL sinks, reader/writer interval predicates, SQL AST of rain-depth view, index spaces of looked-up positions, cursor typestate of the per-interval loop; the series as stored (not rounded, not cut by a window) reaches the run detection; the record is read whole; plain INSERTs",
             "Residue: numpy cumsum labelling of interior runs is not re-derived."),
-    "C04": ("§2 C04", "finite-skeleton extraction of the flag automaton (all 8 valuations), boolean normal form of flags, affine alignment of rates, INSERT column/argument lineage, cursor typestate of the per-interval loop, must-pass-through of the flags INSERT (post-dominance)",
+    "C04": ("§2 C04", "finite-skeleton extraction of the flag automaton (all 8 valuations), boolean normal form of flags, affine alignment of rates, INSERT column/argument lineage, cursor typestate of the per-interval loop, must-pass-through of the flags INSERT (post-dominance); one jump threshold argument; the record is read whole (no fetchmany / bound LIMIT); plain INSERTs",
             "Residue: maximal-run labelling as in C03."),
-    "C05": ("§2 C05", "algebraic normal form of the assembled residual row vs. the gradient of the stated objective; def-use of normal-equation operands; reference position; connected components merge every group a level bridges; lineage of the stored rows (shared with C13)",
+    "C05": ("§2 C05", "algebraic normal form of the assembled residual row vs. the gradient of the stated objective; def-use of normal-equation operands; reference position; connected components merge every group a level bridges; lineage of the stored rows (shared with C13); no truncated solve (lstsq / pinv cut-off); plain INSERTs in rise / recession / zeta_grid",
             "Residue: conditioning/singularity, floating point."),
-    "C07": ("§2 C07", "time-origin lattice dataflow (ABS/REL/ABS~) from epoch sources to comparisons and stored columns",
+    "C07": ("§2 C07", "time-origin lattice dataflow (ABS/REL/ABS~) from epoch sources to comparisons and stored columns; no int(epoch + fraction) truncation; no element taken from an unordered container of absolute epochs",
             "Residue: equivariance of float arithmetic on origin-free values."),
-    "C09": ("§2 C09", "rounding-idiom classification of level->index conversion, two-sided on-grid test, guard dominance (CFG), sibling agreement of rise/recession, CLI wiring",
+    "C09": ("§2 C09", "rounding-idiom classification of level->index conversion, two-sided on-grid test, guard dominance (CFG), sibling agreement of rise/recession, CLI wiring; accepting shortcuts of an on-grid predicate; default origin taken over the levels that are stored",
             "Residue: numeric tolerance of the on-grid test."),
-    "C10": ("§2 C10", "SQL AST rules on grid bounds / copies / row order (rowid-alias lemma), interpolation argument lineage and index-space agreement, validity intervals as symbolic sequences (first grid instant, per-gap samples, last grid instant), sentinel and gap predicate normal forms",
+    "C10": ("§2 C10", "SQL AST rules on grid bounds / copies / row order (rowid-alias lemma), interpolation argument lineage and index-space agreement, validity intervals as symbolic sequences (first grid instant, per-gap samples, last grid instant), sentinel and gap predicate normal forms; boundaries of the validity intervals not passed through value-changing functions",
             "Residue: numeric equality of np.interp; gap detection threshold."),
-    "C11": ("§2 C11", "time-zone API provenance discipline, same-zone def-use, guard dominance of refusals over writes (CFG + call graph), premise of the foreign-key fallback for non-uniform steps",
+    "C11": ("§2 C11", "time-zone API provenance discipline, same-zone def-use, guard dominance of refusals over writes (CFG + call graph), premise of the foreign-key fallback for non-uniform steps; zone constructed through helpers, a name rewrite guarded by a constant regular expression evaluated over pytz.all_timezones; no int(epoch + fraction) truncation",
             "Residue: pytz tables; DST-ambiguous hours."),
-    "C12": ("§2 C12", "library API resolution against installed numpy/scipy, rounding-function agreement and half-open range shapes, pair coverage (every pair of consecutive samples, exact filters only), bracket index agreement, default interpolant, scale agreement of closed-form positions, read-only arguments (may-alias of parameter arrays vs in-place operations)",
+    "C12": ("§2 C12", "library API resolution against installed numpy/scipy, rounding-function agreement and half-open range shapes, pair coverage (every pair of consecutive samples, exact filters only), bracket index agreement, default interpolant, scale agreement of closed-form positions, read-only arguments (may-alias of parameter arrays vs in-place operations); no pair skipped by a test of its abscissae; no buffer for computed positions in the dtype of the input",
             "Residue: brentq tolerance; samples one ulp beside a level."),
-    "C13": ("§2 C13", "entity typing of SQL joins from the FK graph, interval-kind predicates, lineage of every stored row resolved through loop bindings / per-row lists / index look-ups, grid-step lineage, index-translation table, cursor typestate, grid containment",
+    "C13": ("§2 C13", "entity typing of SQL joins from the FK graph, interval-kind predicates, lineage of every stored row resolved through loop bindings / per-row lists / index look-ups, grid-step lineage, index-translation table, cursor typestate, grid containment; rows referenced by the curve tables (foreign-key closure, actions parsed) are not deleted on a connection without enforced foreign keys",
             "Residue: top level when max/step is an integer (documented numeric edge)."),
-    "C14": ("§2 C14", "constant propagation to splrep (s=0,k=3), clamp normal form, order-cell evaluation of integrate over all weak orderings of (a,b,xmin,xmax), delegation of value and integral to one function (one-sided value-changing wrappers)",
+    "C14": ("§2 C14", "constant propagation to splrep (s=0,k=3), clamp normal form, order-cell evaluation of integrate over all weak orderings of (a,b,xmin,xmax), delegation of value and integral to one function (one-sided value-changing wrappers); all points reach the fit (operands of splrep traced to zip(*points), no subset); no tolerance branch in the integral; sorted values not regathered by the sorting permutation",
             "Residue: FITPACK itself; splint modelled as documented."),
-    "C15": ("§2 C15", "branch/formula normal forms of call_scalar, exp-of-log-spline order 1, array path = mapped scalar path (a gather by the sorting permutation is named), unit bookkeeping",
+    "C15": ("§2 C15", "branch/formula normal forms of call_scalar, exp-of-log-spline order 1, array path = mapped scalar path (a gather by the sorting permutation is named), unit bookkeeping; no fixed-order quadrature; sorted values not regathered by the sorting permutation",
             "Residue: quadrature accuracy."),
     "C16": ("§2 C16", "API resolution; cross-language algebraic normal-form agreement between the R reference and specific_yield.py; transmissivity normal form; refusal dominance; layer sum is not a quadrature routine; parameter mapping bound to constructors by name",
             "Residue: numerical agreement with R output."),
-    "C17": ("§2 C17", "affine cell-integral indices, polarity of the mean shift, SQL ordering/binding, row integrity of 2-D row arrays, label/column/unit agreement",
+    "C17": ("§2 C17", "affine cell-integral indices, polarity of the mean shift, SQL ordering/binding, row integrity of 2-D row arrays, label/column/unit agreement; arguments read-only over spline / specific_yield / simulate_rise; no tolerance branch in the integral",
             "Residue: inherited from C14; YAML layout."),
-    "C18": ("§2 C18", "integrand normal form, cell integrals, unit bookkeeping, ET interval-predicate rule, unit conversion keyed on the section it converts, output ordering parity and label/unit agreement",
+    "C18": ("§2 C18", "integrand normal form, cell integrals, unit bookkeeping, ET interval-predicate rule, unit conversion keyed on the section it converts, output ordering parity and label/unit agreement; no fixed-order quadrature; sorted values not regathered by the sorting permutation",
             "Residue: quadrature; sign of denominator."),
-    "C19": ("§2 C19", "symbolic line counts vs declared counts, name-family equality, ordering parity pst vs simulate, format precision, instruction window width against the width of hand-formatted items, marker agreement, template/constructor keys",
+    "C19": ("§2 C19", "symbolic line counts vs declared counts, name-family equality, ordering parity pst vs simulate, format precision, instruction window width against the width of hand-formatted items, marker agreement, template/constructor keys; nothing written between the marker line and the vector; fixed template values not passed through value-changing helpers",
             "Residue: PEST's own parsing rules."),
-    "C20": ("§2 C20", "transaction-effect analysis: call-graph + CFG reachability from commit points to writes, handler discipline, connection mode, first keyword of every write (driver-opened transaction), Bernstein conditions on table read/write sets",
+    "C20": ("§2 C20", "transaction-effect analysis: call-graph + CFG reachability from commit points to writes, handler discipline, connection mode, first keyword of every write (driver-opened transaction), Bernstein conditions on table read/write sets; callee write / commit summaries computed from every body (new callees included)",
             "Trusted base: SQLite atomic commit; CPython sqlite3 legacy transaction control. O5 is a sufficient condition (labelled)."),
 }
 
